@@ -169,7 +169,9 @@ int32_t jls_track_repair_pointers(struct jls_core_track_s * track) {
         if (jls_raw_chunk_seek(raw, offset) || jls_core_rd_chunk(core)) {
             if (data_chunk.offset) {
                 data_chunk.hdr.item_next = 0;
-                jls_core_update_chunk_header(core, &summary_chunk);
+                jls_core_update_chunk_header(core, &data_chunk);
+            } else if (offset == track->head_offsets[0]) {
+                track->head_offsets[0] = 0;  // the first chunk of the list is not readable
             }
             break;
         }
